@@ -60,9 +60,9 @@ def demo_cmd(d, wt):
         if not pk:
             sys.exit("cannot find package dir for demo_test.go in " + d)
         run = meta.get("demo_run")
-        cwd = wt
+        cwd = os.path.join(wt, meta["demo_cwd"]) if meta.get("demo_cwd") else wt
         if not run:
-            mm = re.search(r"^//\s*(?:Run(?: with)?\s*:\s*)?(?:cd (repo[\w./-]*) && )?(go test [^\n]*)$", head, re.M)
+            mm = re.search(r"^//[^\n]*?(?:cd (repo[\w./-]*) && )?(go test [^\n]*)$", head, re.M)
             if not mm:
                 sys.exit("cannot find run command in " + t)
             run = mm.group(2).strip()
